@@ -20,6 +20,8 @@ import os
 # --- finding-keyed generator exclusions (False = construct not generated) -------------------------
 EXCL = {
     # name: (generate?, known key)
+    'elif-after-taken-group': (False, 'pp:elif-after-taken-group-evaluated'),
+    'if-short-circuit-div0': (False, 'pp:if-short-circuit-division-by-zero'),
 }
 
 
@@ -324,13 +326,7 @@ class Gen:
             body = self.call(name=r.choice(list(self.numfun)))
         return self._define_line(name, None, body)
 
-    def define_numfun(self):
-        name = self.r.choice(list(self.numfun))
-        if name == 'SQ':
-            return '#define SQ(x) ((x)*(x))'
-        if name == 'ADD':
-            return '#define ADD(x,y) ((x)+(y))'
-        return '#define MAX(x,y) ((x)>(y)?(x):(y))'
+    NUMFUN_PRELUDE = ['#define SQ(x) ((x)*(x))', '#define ADD(x,y) ((x)+(y))', '#define MAX(x,y) ((x)>(y)?(x):(y))']
 
     def define_fun(self):
         r = self.r
@@ -446,7 +442,8 @@ class Gen:
             return '(%s ? %s : %s)' % (self.expr(depth + 1), self.expr(depth + 1), self.expr(depth + 1))
         if x < 0.70:
             self.f.add('if-short-circuit')
-            if r.random() < 0.5:
+            if r.random() < 0.5 and allowed('if-short-circuit-div0'):
+                self.f.add('if-short-circuit-div0')
                 return '(0 && (1/0))' if r.random() < 0.5 else '(%s || 1 || (1/0))' % self.expr(depth + 1)
             m = r.choice(self.cfg + self.num)
             return '(defined(%s) && %s %s %s)' % (m, m, r.choice(['>', '==', '<', '>=']), r.choice(INTS[:8]))
@@ -516,7 +513,7 @@ class Gen:
             elif x < 0.62:
                 lines.append(self.define_num())
             elif x < 0.65:
-                lines.append(self.define_numfun())
+                lines.append(self.text_line())
             elif x < 0.70:
                 self.f.add('undef')
                 lines.append('#undef ' + r.choice(self.obj + self.num + self.cfg + list(self.fun)[:6]))
@@ -546,6 +543,10 @@ class Gen:
             lines.append(('#if ' if r.random() < 0.9 else '# if ') + self.expr())
             self.f.add('if-expr')
         lines += self.block(depth + 1, r.randint(1, 3), hdr_index)
+        if r.random() < 0.04 and allowed('elif-after-taken-group'):
+            # "#if 1" group is certainly taken: a conforming preprocessor does not evaluate the #elif
+            self.f.add('elif-after-taken-group')
+            return (['#if 1'] + lines + ['#endif', '#elif NOT_A_MACRO(1) > 2', self.text_line(), '#endif'])
         for _ in range(r.choice([0, 0, 0, 1, 1, 2])):
             lines.append('#elif ' + self.expr())
             self.f.add('elif')
@@ -666,10 +667,10 @@ class Gen:
                 v = name
             elif x < 0.75:
                 v = '%s=%s' % (name, r.choice(INTS))
-            elif x < 0.82:
+            elif x < 0.82 and name in self.obj:
                 v = name + '='
                 self.f.add('D-empty-value')
-            elif x < 0.92:
+            elif x < 0.92 and name in self.obj:
                 v = '%s=%s' % (name, self.join(self.body_tokens(r.randint(1, 3))))
                 self.f.add('D-token-list')
             else:
@@ -692,7 +693,8 @@ class Gen:
         if r.random() < 0.3:
             self.f.add('forced-include')
             rel = r.choice(['forced.h', 'inc/forced.h'])
-            self.case.files[rel] = 'int in_forced ;\n' + '\n'.join(self.block(1, r.randint(1, 3), 10 ** 6)) + '\n'
+            self.case.files[rel] = ('int in_forced ;\n' + '\n'.join(self.NUMFUN_PRELUDE) + '\n'
+                                    + '\n'.join(self.block(1, r.randint(1, 3), 10 ** 6)) + '\n')
             opts.append(('include', rel))
         r.shuffle(opts)
         # keep every -U behind the -D options (gcc processes -D/-U in order, cppcheck as sets)
@@ -709,7 +711,7 @@ class Gen:
             for k, rel in enumerate(h['copies']):
                 self.case.files[rel] = self.header_text(h, rel, k)
         budget = max(3, int(r.randint(5, 14) * self.size))
-        lines = self.block(0, budget, -1)
+        lines = list(self.NUMFUN_PRELUDE) + self.block(0, budget, -1)
         if getattr(self, 'fun_d', False):
             lines.append('DF(3) DF(a b)')
         # make sure every case expands something
